@@ -56,6 +56,12 @@ pub fn positions() -> Vec<Pos> {
         p("from-schema.table/table", 0, |n, d| qb!(d, Query::select().column(a("c")).from((a("s"), a(n))))),
         p("from-db.schema.table/db", 0, |n, d| qb!(d, Query::select().column(a("c")).from((a(n), a("s"), a("t"))))),
         p("from-db.schema.table/table", 0, |n, d| qb!(d, Query::select().column(a("c")).from((a("d"), a("s"), a(n))))),
+        p("from-db.schema.table-alias/db", 0, |n, d| qb!(d, Query::select().column(a("c")).from_as((a(n), a("s"), a("t")), a("x")))),
+        p("from-db.schema.table-alias/schema", 0, |n, d| qb!(d, Query::select().column(a("c")).from_as((a("d"), a(n), a("t")), a("x")))),
+        p("from-db.schema.table-alias/table", 0, |n, d| qb!(d, Query::select().column(a("c")).from_as((a("d"), a("s"), a(n)), a("x")))),
+        p("from-db.schema.table-alias/alias", 0, |n, d| qb!(d, Query::select().column(a("c")).from_as((a("d"), a("s"), a("t")), a(n)))),
+        p("join-db.schema.table-alias/schema", 0, |n, d| qb!(d, sel().join_as(JoinType::LeftJoin, (a("d"), a(n), a("u")), a("x"), Expr::col((a("x"), a("c"))).eq(1)))),
+        p("delete-schema.table", 0, |n, d| qb!(d, Query::delete().from_table((a(n), a("t"))).and_where(Expr::col(a("c")).eq(1)))),
         p("from-table-alias", 0, |n, d| qb!(d, Query::select().column(a("c")).from_as(a("t"), a(n)))),
         p("from-schema-table-alias", 0, |n, d| qb!(d, Query::select().column(a("c")).from_as((a("s"), a("t")), a(n)))),
         p("select-column", 0, |n, d| qb!(d, Query::select().column(a(n)).from(a("t")))),
@@ -126,6 +132,9 @@ pub fn positions() -> Vec<Pos> {
         p("create-table/fk-ref-column", 0, |n, d| qb!(d, Table::create().table(a("t")).col(ColumnDef::new(a("c")).integer()).foreign_key(ForeignKey::create().name("f").from(a("t"), a("c")).to(a("u"), a(n))))),
         p("alter-table/table", 0, |n, d| qb!(d, Table::alter().table(a(n)).add_column(ColumnDef::new(a("c")).integer()))),
         p("alter-table/add-column", 0, |n, d| qb!(d, Table::alter().table(a("t")).add_column(ColumnDef::new(a(n)).integer()))),
+        p("alter-table/modify-column-with-specs", 0, |n, d| qb!(d, Table::alter().table(a("t")).modify_column(ColumnDef::new(a(n)).integer().not_null().default(1).unique_key()))),
+        p("alter-table/modify-column-null-primary-key", 0, |n, d| qb!(d, Table::alter().table(a("t")).modify_column(ColumnDef::new(a(n)).integer().null().primary_key()))),
+        p("alter-table/add-column-with-specs", 0, |n, d| qb!(d, Table::alter().table(a("t")).add_column(ColumnDef::new(a(n)).integer().not_null().default(1).unique_key().check(Expr::col(a(n)).gt(0))))),
         p("alter-table/rename-column-from", 0, |n, d| qb!(d, Table::alter().table(a("t")).rename_column(a(n), a("k")))),
         p("alter-table/rename-column-to", 0, |n, d| qb!(d, Table::alter().table(a("t")).rename_column(a("c"), a(n)))),
         p("alter-table/drop-column", 0, |n, d| qb!(d, Table::alter().table(a("t")).drop_column(a(n)))),
@@ -163,10 +172,24 @@ fn marker_skeleton(pi: usize, p: &Pos, d: Dialect) -> Option<(Vec<String>, Vec<u
         return x;
     }
     let r = (|| {
+        // positions of one dialect's own statements (CREATE TYPE, index hints, ..) are rendered by that backend only
+        if (p.name.starts_with("pg-") && d != Dialect::Postgres) || (p.name.starts_with("mysql-") && d != Dialect::Mysql) {
+            return None;
+        }
         let sql = catch(|| (p.render)(MARK, d)).ok()?;
-        let toks = lex(d, &sql).ok()?;
+        let toks = match lex(d, &sql) {
+            Ok(t) => t,
+            Err(_) if sql.contains(MARK) => return Some((vec![format!("BROKEN:{sql}")], vec![])),
+            Err(_) => return None,
+        };
         let slots: Vec<usize> = toks.iter().enumerate().filter(|(_, t)| matches!(&t.tok, Tok::Ident(s) if s == MARK)).map(|(i, _)| i).collect();
         if slots.is_empty() {
+            // the dialect does not render this position at all (an index hint on PostgreSQL, ..): not applicable. But a
+            // benign name that IS written and is not an identifier token of its own is a broken rendering, not a reason
+            // to skip the position
+            if sql.contains(MARK) {
+                return Some((vec![format!("BROKEN:{sql}")], vec![]));
+            }
             return None;
         }
         Some((skeleton(&toks), slots))
@@ -177,6 +200,9 @@ fn marker_skeleton(pi: usize, p: &Pos, d: Dialect) -> Option<(Vec<String>, Vec<u
 
 pub fn check_one(pi: usize, p: &Pos, d: Dialect, name: &str, engine_runs: &Counter) -> Result<bool, (String, String)> {
     let Some((sk0, slots)) = marker_skeleton(pi, p, d) else { return Ok(false) };
+    if slots.is_empty() {
+        return Err(("benign-name-is-not-an-identifier-token".into(), format!("with the benign name {MARK:?} the statement is {:?}: the name is written but is not a quoted-identifier token of its own", sk0[0].trim_start_matches("BROKEN:"))));
+    }
     if p.name == "as-enum-cast-type" && name.ends_with("[]") {
         return Ok(false); // `name[]` is the documented spelling of an enum-array cast, not an identifier
     }
